@@ -50,11 +50,17 @@ EqualityQs == {"regularization_weights_from", "total_params", "param_range_list_
 ExactDictQs == {"linear_func_operated_mapping_matrix_dict", "mapper_operated_mapping_matrix_dict", "regularization_weights_mapper_dict"}
 LinearDictQs == {"mapped_reconstructed_data_dict", "mapped_reconstructed_image_dict", "data_subtracted_dict"}
 
+ReconstructionQs == LinearDictQs \cup {"reconstruction", "reconstruction_reduced", "reconstruction_dict", "mapped_reconstructed_data",
+                                        "mapped_reconstructed_image", "regularization_term"}
+NoiseQs == {"reconstruction_noise_map", "reconstruction_noise_map_with_covariance", "reconstruction_noise_map_dict"}
 \* r = the record (instance fields + e = noise map of a cold twin in fixed point), rd = one read
 JudgeRead(T, r, rd) ==
   LET q == rd.q IN
   IF rd.raised THEN << "no-exception" >>
   ELSE IF rd.bad THEN << "value-has-the-published-type-and-is-on-the-lattice" >>
+  \* the reconstruction and the noise map of a record come from a cold twin inversion: their lengths are judged, not assumed
+  ELSE IF q \in ReconstructionQs /\ Len(T.I.s) # T.tot THEN << "reconstruction-has-one-entry-per-parameter" >>
+  ELSE IF q \in NoiseQs /\ Len(r.e) # T.tot THEN << "noise-map-has-one-entry-per-parameter" >>
   ELSE
   CASE q \in EqualityQs -> Cl(EqualityLaw(q), rd.v = Want(T, q, rd.arg, rd.filt))
     [] q = "mask" -> Cl("mask-is-the-mask-of-the-data", rd.v = TRUE)
@@ -154,8 +160,8 @@ Sig(T, rd) ==
   \o (IF rd.raised THEN ":raises" ELSE "")
 
 WantOf(T, r, rd) ==
-  IF rd.q \in EqualityQs \cup ExactDictQs \cup LinearDictQs
-              \cup {"reconstruction_dict", "reconstruction_reduced", "mapped_reconstructed_data", "mapped_reconstructed_image", "regularization_term"}
+  IF rd.q \in ReconstructionQs /\ Len(T.I.s) # T.tot THEN [parameters |-> T.tot]
+  ELSE IF rd.q \in EqualityQs \cup ExactDictQs \cup ReconstructionQs
   THEN Want(T, rd.q, rd.arg, rd.filt)
   ELSE IF rd.q = "no_regularization_index_list" THEN UnregSeq(T)
   ELSE IF rd.q = "mapper_edge_pixel_list" THEN EdgeSeq(T)
@@ -164,16 +170,21 @@ WantOf(T, r, rd) ==
 InstOfRecord(r) == [n |-> r.n, objs |-> r.objs, w |-> r.w, d |-> r.d, g |-> r.g, eps |-> r.eps, s |-> r.s, S |-> r.S,
                     exact |-> r.exact, zpix |-> r.zpix]
 
+\* all reads of one record, judged against one table (constant level: the table is evaluated once per record)
+RECURSIVE RejectsFrom(_, _, _)
+RejectsFrom(T, r, j) ==
+  IF j > Len(r.reads) THEN << >>
+  ELSE LET rd == r.reads[j] f == JudgeRead(T, r, rd)
+       IN (IF f = << >> THEN << >>
+           ELSE << [k |-> "reject", id |-> r.id, read |-> j, q |-> rd.q, arg |-> rd.arg, clauses |-> f, sig |-> Sig(T, rd), want |-> WantOf(T, r, rd)] >>)
+          \o RejectsFrom(T, r, j + 1)
+Rejects(r) == RejectsFrom(TabFull(InstOfRecord(r)), r, 1)
+
 TraceInit == i = 1 /\ lst = << >> /\ cache = NoCache /\ nreads = 0 /\ out = NoOut
 TraceNext ==
   /\ i <= Len(Trace)
-  /\ LET r == Trace[i]
-         T == Tab(InstOfRecord(r))
-     IN \A j \in DOMAIN r.reads :
-          LET rd == r.reads[j] f == JudgeRead(T, r, rd)
-          IN IF f = << >> THEN TRUE
-             ELSE PrintT(ToJson([k |-> "reject", i |-> i, id |-> r.id, read |-> j, q |-> rd.q, arg |-> rd.arg, clauses |-> f,
-                                 sig |-> Sig(T, rd), want |-> WantOf(T, r, rd)]))
+  /\ LET rj == Rejects(Trace[i])
+     IN \A x \in DOMAIN rj : PrintT(ToJson(rj[x] @@ [i |-> i]))
   /\ i' = i + 1
   /\ UNCHANGED vars
 TraceSpec == TraceInit /\ [][TraceNext]_<< vars, i >>
